@@ -163,15 +163,25 @@ def lattice_xy(chk, rng, count):
     # positions as the float offsets, and the round trip holds
     for ref in ((47.2031, 11.3052), (-33.4567, 151.2093)):
         xi, yi = np.meshgrid(np.arange(-2000, 2001, 800), np.arange(-1500, 1501, 600))
-        forms = [("integer arrays", xi, yi), ("Python ints", 300, -400), ("Python ints at the origin", 0, 0), ("integer x, float y", 300, -400.0)]
+        ys_line = np.linspace(-3000.0, 3000.0, 7)
+        forms = [("integer arrays", xi, yi), ("Python ints", 300, -400), ("Python ints at the origin", 0, 0), ("integer x, float y", 300, -400.0),
+                 ("a scalar x with an array of y (points along a meridian)", 0.0, ys_line), ("an array of x with a scalar y (points along a parallel)", ys_line, 250.0),
+                 ("a column of x against a row of y (broadcast)", ys_line[:, None], ys_line[None, :3])]
         for what, xa, ya in forms:
             n += 1
             try:
                 la_i, lo_i = xy_to_latlon(xa, ya, ref[0], ref[1])
                 la_f, lo_f = xy_to_latlon(np.asarray(xa, dtype=float), np.asarray(ya, dtype=float), ref[0], ref[1])
-                back_xy = [latlon_to_xy(float(a_), float(o_), ref[0], ref[1]) for a_, o_ in zip(np.ravel(la_i), np.ravel(lo_i))]   # the forward transform takes scalars
-                xb = np.array([b_[0] for b_ in back_xy]).reshape(np.shape(la_i))
-                yb = np.array([b_[1] for b_ in back_xy]).reshape(np.shape(la_i))
+                la_b, lo_b = np.broadcast_arrays(np.asarray(la_i, dtype=float), np.asarray(lo_i, dtype=float))
+                back_xy = [latlon_to_xy(float(a_), float(o_), ref[0], ref[1]) for a_, o_ in zip(np.ravel(la_b), np.ravel(lo_b))]   # the forward transform takes scalars
+                xb = np.array([b_[0] for b_ in back_xy]).reshape(np.shape(la_b))
+                yb = np.array([b_[1] for b_ in back_xy]).reshape(np.shape(la_b))
+                if np.shape(la_b) != np.broadcast(np.asarray(xa), np.asarray(ya)).shape:
+                    chk.violation("offsets given as %s: %d positions go in, %d come out" % (what, np.broadcast(np.asarray(xa), np.asarray(ya)).size, np.size(la_b)),
+                                  {"kind": "geo_integer_offsets", "form": what, "ref": ref}, klass={"check": "integer_offsets"})
+                    continue
+                la_f, lo_f = np.broadcast_arrays(np.asarray(la_f, dtype=float), np.asarray(lo_f, dtype=float))
+                la_i, lo_i = la_b, lo_b
             except Exception as ex:  # noqa: BLE001
                 chk.violation("xy_to_latlon of %s raised %r" % (what, ex), {"kind": "geo_integer_offsets", "form": what, "ref": ref}, klass={"check": "integer_offsets"})
                 continue
